@@ -22,6 +22,7 @@ type V struct {
 	Loc *Loc     // pointer values that denote a location inside an object
 	C   *big.Int // untyped integer constant (spec expressions only)
 	B   *bool    // untyped bool constant
+	Mem string   // slices only: memory class override (ghost streams live in their own, never written, memory)
 }
 
 const (
